@@ -17,6 +17,14 @@ def run(rep, wd, tier, seed):
         raise core.MachineryError('the shared work area did not produce the Isolation counterexample:\n' + res.stdout[-1500:])
     rep.add_tlc('MC_Scratch shared work area: Isolation violated after Fill(1), Fill(2), Use(1) (expected)', res)
     rep.sample({'design_counterexample': 'Fill(1), Fill(2), Use(1): thread 1 hands on thread 2\'s data'})
+    # round 9: the fixed lock-step schedule of ONE caller with two objects (ScratchLockstep.tla) - a single behaviour
+    res = core.run_tlc('MC_ScratchLockstep', 'MC_ScratchLockstep_private.cfg', wd, workers=1)
+    core.require_ok(res, 'ScratchLockstep private work areas', min_states=11)
+    rep.add_tlc('ScratchLockstep private work areas: one behaviour of 11 states, Isolation, LFinishes', res)
+    res = core.run_tlc('MC_ScratchLockstep', 'MC_ScratchLockstep_shared.cfg', wd, workers=1, expect_fail=True)
+    if res.ok or 'Invariant Isolation is violated' not in res.stdout:
+        raise core.MachineryError('the shared work area did not produce the lock-step counterexample:\n' + res.stdout[-1500:])
+    rep.add_tlc('ScratchLockstep shared work area: Isolation violated in the third step of the only behaviour (expected)', res)
     rep.exhaustive = True
 
 
